@@ -108,7 +108,7 @@ pub fn check_stream_only(v: &dyn Val, cfg: &SerCfg) -> Result<bool, String> {
 pub fn run_serde(ctx: &mut Ctx, loc: &mut Local, r: &mut Rng) {
     // shapes outside the round-trip domain first
     let so = ser_only();
-    let n = ctx.scaled(ctx.tier.pick(40_000, 400_000)) / ctx.nshards as u64 + 1;
+    let n = ctx.scaled(ctx.tier.pick(40_000, 3_000_000)) / ctx.nshards as u64 + 1;
     for k in 0..n {
         let s = &so[(k as usize) % so.len()];
         let vseed = r.next();
@@ -139,7 +139,7 @@ pub fn run_serde(ctx: &mut Ctx, loc: &mut Local, r: &mut Rng) {
         }
     }
     let fam = family();
-    let n = ctx.scaled(ctx.tier.pick(100_000, 1_000_000)) / ctx.nshards as u64 + 1;
+    let n = ctx.scaled(ctx.tier.pick(100_000, 8_000_000)) / ctx.nshards as u64 + 1;
     for k in 0..n {
         let ops = &fam[(k as usize) % fam.len()];
         let vseed = r.next();
